@@ -56,7 +56,7 @@ def check(events, case):
 
 def run(ctx):
     quick = ctx.tier == "quick"
-    k_all, k_core = (2, 3) if quick else (3, 4)
+    k_all, k_core = (2, 3) if quick else (3, 5)
     seqs = [list(s) for n in range(k_all + 1) for s in itertools.product(FORMS, repeat=n)]
     seqs += [list(s) for n in range(k_all + 1, k_core + 1) for s in itertools.product(CORE, repeat=n)]
     jobs = []
